@@ -75,6 +75,15 @@ class IsoDepInitiator(object):
         self.n_retry_ack = min(int(1/self.fwt), 5)
         self.n_retry_nak = self.n_retry_ack
 
+    def _exchange(self, data, timeout):
+        # Send a block and return the answer. A request for waiting time
+        # extension is granted within the same error recovery as the block.
+        data = self.clf.exchange(data, timeout)
+        while len(data) > 1 and data[0] & 0b11111110 == 0b11110010:  # WTX
+            log.debug("ISO-DEP waiting time extension")
+            data = self.clf.exchange(data, (data[1] & 0x3F) * self.fwt)
+        return data
+
     def exchange(self, command, timeout=None):
         if timeout is None:
             timeout = self.fwt + self.delta_fwt
@@ -92,7 +101,7 @@ class IsoDepInitiator(object):
 
             for i in itertools.count(start=1):  # pragma: no branch
                 try:
-                    data = self.clf.exchange(data, timeout)
+                    data = self._exchange(data, timeout)
                     if len(data) == 0:
                         raise nfc.clf.TransmissionError
                     if data[0] == 0xA2 | (~self.pni & 1):
@@ -117,10 +126,6 @@ class IsoDepInitiator(object):
                 except nfc.clf.ProtocolError:
                     log.error("ISO-DEP unrecoverable protocol error")
                     raise Type4TagCommandError(nfc.tag.PROTOCOL_ERROR)
-
-            while data[0] & 0b11111110 == 0b11110010:  # WTX
-                log.debug("ISO-DEP waiting time extension")
-                data = self.clf.exchange(data, (data[1] & 0x3F) * self.fwt)
 
             if data[0] & 0x01 != self.pni:
                 log.warning("ISO-DEP protocol error: block number")
